@@ -171,10 +171,10 @@ pub fn check_program(prog: &Program, seed: u64, thorough: bool, small: bool, rep
 pub fn run(p: &Params, rep: &mut Report) {
     let stride = 1;
     for_tiny_programs(p, rep, stride, p.size(150, 3000), |prog, seed, rep| check_program(prog, seed, p.thorough, true, rep));
-    let n = p.size(30, 300);
+    let n = p.size(120, 1200);
     for_programs(p, rep, 19, n, &STD_WEIGHTS, (15, 40), |prog, seed, rep| check_program(prog, seed, p.thorough, false, rep));
     // bounded-progress restatement of termination on the calibrated small profile
-    let n2 = p.size(60, 600);
+    let n2 = p.size(300, 3000);
     let small = [(Profile::Small, 1)];
     for_programs(p, rep, 20, n2, &small, (6, 12), |prog, seed, rep| {
         rep.inc("small_profile_programs");
